@@ -18,6 +18,8 @@ CONSTANTS V,        \* validator instances
           I,        \* update_interval in time units
           B,        \* claimed bound: every known CRL is fetched again within B*I
           Global,   \* TRUE: one process-wide finish timestamp (deviation D16); FALSE: one per instance
+          D,        \* a refresh pass lasts at most D time units (the refresh mutex is held meanwhile)
+          DropWhenBusy, \* TRUE: a tick that finds the refresh mutex taken is dropped instead of waiting (deviation)
           Export
 
 Cap == B * I + 1
@@ -27,8 +29,10 @@ VARIABLES clk,        \* [V -> 0..I-1]  phase clock of each instance's ticker; t
           due,        \* SUBSET V       instances whose tick at the current instant has not been processed yet
           age,        \* [V -> 0..I] or NoStamp: time since the finish timestamp consulted by v was written
           since,      \* [V -> 0..Cap]  time since instance v last re-fetched its CRLs
-          fails       \* [V -> 0..2]    consecutive failed refreshes of v (the outcome is the environment's choice)
-vars == <<clk, due, age, since, fails>>
+          fails,      \* [V -> 0..2]    consecutive failed refreshes of v (the outcome is the environment's choice)
+          holder,     \* the instance whose pass is in progress (holds the process-wide refresh mutex), or "none"
+          busy        \* 0..D           time the current pass has lasted
+vars == <<clk, due, age, since, fails, holder, busy>>
 
 Key(v) == IF Global THEN CHOOSE w \in V : TRUE ELSE v
 Min(a, b) == IF a < b THEN a ELSE b
@@ -38,36 +42,50 @@ Init == /\ clk \in [V -> 0..I-1]
         /\ age = [v \in V |-> NoStamp]
         /\ since = [v \in V |-> 0]
         /\ fails = [v \in V |-> 0]
+        /\ holder = "none" /\ busy = 0
 
 \* time.Since(lastFinish) < interval/2
 Recent(v) == age[Key(v)] # NoStamp /\ 2 * age[Key(v)] < I
 
-Emit(op, o) == Export => PrintT(<<"EDGE", ToJson([from |-> [clk |-> clk, due |-> due, age |-> age, since |-> since, fails |-> fails], op |-> op,
-                                                    to |-> [clk |-> clk', due |-> due', age |-> age', since |-> since', fails |-> fails'], expect |-> o])>>)
+Emit(op, o) == Export => PrintT(<<"EDGE", ToJson([from |-> [clk |-> clk, due |-> due, age |-> age, since |-> since, fails |-> fails, holder |-> holder, busy |-> busy], op |-> op,
+                                                    to |-> [clk |-> clk', due |-> due', age |-> age', since |-> since', fails |-> fails', holder |-> holder', busy |-> busy'], expect |-> o])>>)
 
-\* a ticker tick of instance v is processed: skipped iff a pass finished less than half an interval ago,
-\* otherwise every known location is fetched again, whatever the outcome of the previous attempts
-Tick(v, ok) ==
-  /\ v \in due /\ due' = due \ {v}
-  /\ UNCHANGED clk
+\* a ticker tick of instance v gets the refresh mutex: it is skipped iff a pass of v finished less than half an interval
+\* ago, otherwise a pass over every known location starts. A tick that finds the mutex taken WAITS (it stays due).
+TickBegin(v) ==
+  /\ v \in due /\ holder = "none" /\ due' = due \ {v}
+  /\ UNCHANGED <<clk, age, since, fails, busy>>
   /\ IF Recent(v)
-     THEN /\ ok /\ UNCHANGED <<age, since, fails>>
-          /\ Emit(<<"tick", v, ok>>, [decision |-> "skip"])
-     ELSE /\ since' = [since EXCEPT ![v] = 0]
-          /\ age' = [w \in V |-> IF Key(w) = Key(v) THEN 0 ELSE age[w]]
-          /\ fails' = [fails EXCEPT ![v] = IF ok THEN 0 ELSE Min(@ + 1, 2)]
-          /\ Emit(<<"tick", v, ok>>, [decision |-> "run"])
+     THEN holder' = holder /\ Emit(<<"tickbegin", v>>, [decision |-> "skip"])
+     ELSE holder' = v /\ Emit(<<"tickbegin", v>>, [decision |-> "run"])
 
+\* deviation: the tick gives up when another pass is in progress
+TickDropped(v) ==
+  /\ DropWhenBusy /\ v \in due /\ holder # "none" /\ holder # v /\ due' = due \ {v}
+  /\ UNCHANGED <<clk, age, since, fails, holder, busy>>
+  /\ Emit(<<"tickdropped", v>>, [decision |-> "dropped"])
+
+\* the pass of v finishes: every known location was fetched again, whatever the outcome of the previous attempts
+TickEnd(v, ok) ==
+  /\ holder = v /\ holder' = "none" /\ busy' = 0
+  /\ since' = [since EXCEPT ![v] = 0]
+  /\ age' = [w \in V |-> IF Key(w) = Key(v) THEN 0 ELSE age[w]]
+  /\ fails' = [fails EXCEPT ![v] = IF ok THEN 0 ELSE Min(@ + 1, 2)]
+  /\ UNCHANGED <<clk, due>>
+  /\ Emit(<<"tickend", v, ok>>, [decision |-> "done"])
+
+\* time passes when no tick is waiting to be processed, or while a pass is in progress (at most D units per pass)
 Advance ==
-  /\ due = {}
+  /\ (IF holder = "none" THEN due = {} ELSE busy < D)
   /\ clk' = [v \in V |-> (clk[v] + 1) % I]
-  /\ due' = {v \in V : clk'[v] = 0}
+  /\ due' = due \cup {v \in V : clk'[v] = 0}
   /\ age' = [v \in V |-> IF age[v] = NoStamp THEN NoStamp ELSE Min(age[v] + 1, I)]
   /\ since' = [v \in V |-> Min(since[v] + 1, Cap)]
-  /\ UNCHANGED fails
+  /\ busy' = IF holder = "none" THEN 0 ELSE busy + 1
+  /\ UNCHANGED <<fails, holder>>
   /\ Emit(<<"advance">>, [decision |-> "none"])
 
-Next == Advance \/ \E v \in V, ok \in BOOLEAN : Tick(v, ok)
+Next == Advance \/ \E v \in V : TickBegin(v) \/ TickDropped(v) \/ \E ok \in BOOLEAN : TickEnd(v, ok)
 Spec == Init /\ [][Next]_vars /\ WF_vars(Next)
 
 (* =============================== properties ============================= *)
@@ -75,5 +93,5 @@ Spec == Init /\ [][Next]_vars /\ WF_vars(Next)
 BoundedRefresh == \A v \in V : since[v] <= B * I
 \* ... forever (checked on the complete graph under weak fairness)
 Live == \A v \in V : []<>(since[v] = 0)
-TypeOK == clk \in [V -> 0..I-1] /\ due \subseteq V
+TypeOK == clk \in [V -> 0..I-1] /\ due \subseteq V /\ holder \in V \cup {"none"} /\ busy \in 0..D
 =============================================================================
